@@ -375,6 +375,21 @@ def predict(cfg, rng, q=None, thorough=False, sub=None, stats=None, other=None):
 
     def bad(key, what, **kw):
         out.append(dict(key=key, what=what, cfg=jsonable(cfg), sub=sub, thorough=bool(thorough), other=jsonable(other), **kw))
+    # the surface that is exported is built around the axis INTERPOLANTS: at the grid nodes they are the input axis (evaluated here from the coefficients)
+    n += 1
+    try:
+        nf_ = max(len(cfg.get(c, [])) for c in ('rc', 'zs', 'rs', 'zc')) if isinstance(cfg, dict) and 'rc' in cfg else 0
+        if nf_:
+            padl = lambda l: list(l) + [0.0] * (nf_ - len(l))
+            rc_, rs_, zc_, zs_ = (padl(cfg.get(c, [])) for c in ('rc', 'rs', 'zc', 'zs'))
+            xs_ = np.concatenate([q.phi, q.phi[:3] + 2 * np.pi / q.nfp])
+            Ra = sum(rc_[m] * np.cos(m * q.nfp * xs_) + rs_[m] * np.sin(m * q.nfp * xs_) for m in range(nf_))
+            Za = sum(zc_[m] * np.cos(m * q.nfp * xs_) + zs_[m] * np.sin(m * q.nfp * xs_) for m in range(nf_))
+            eax = max(float(np.max(np.abs(q.R0_func(xs_) - Ra))), float(np.max(np.abs(q.Z0_func(xs_) - Za))))
+            if eax > 1e-11 * max(1.0, float(np.max(np.abs(Ra)))):
+                bad('axis-interpolant', 'R0_func / Z0_func differ from the input axis at the grid nodes by %.3g: the exported surface is built around a different axis than the one written to the file' % eax)
+    except Exception:
+        pass
     tmp = tempfile.mkdtemp(prefix='c15_')
     try:
         r = r_for(q, r2)
